@@ -55,3 +55,13 @@ package rawdb
 //@   for C13
 //@   requires 0 <= index && index <= 4294967295 && len(blockPartPrefix) == 1 && cap(blockPartPrefix) == 1      // a one-byte literal: append always copies
 //@   ensures [keyHoldsHeightAndFullIndex] len(r) == 13 && binary.u64be(r[1:9]) == height && binary.u32be(r[9:13]) == index
+
+// The seen commit of a height is read from the key it was written under (seenCommitKey), not from the
+// canonical-commit key of the same height.
+//@ func ReadSeenCommit(db kaidb.Reader, height uint64) (r *types.Commit)
+//@   for C13
+//@   requires db != nil
+//@   modifies *
+//@   opt assumecallreqs
+//@   atcall Reader.Get requires [readsTheSeenCommitKey] sameArray(key, result(seenCommitKey)) && len(key) == len(result(seenCommitKey))
+//@   atcall seenCommitKey requires [keyOfTheRequestedHeight] height == outer(height)
